@@ -6,7 +6,7 @@ import struct
 from lib.coqterm import cbytes, cbool, cN, cnat, clist, hx, unhx
 
 ID = "C25"
-QUICK_N = 3000
+QUICK_N = 2000
 THOROUGH_N = 30000
 SHARD = 150
 COQ_PRELUDE = "From MV Require Import Model.DnsNames Model.DnsMessage.\n"
